@@ -14,3 +14,25 @@ Theorem C19_code_tie : forall sgn L key elm fuel, no_nul key ->
   c_comparer fuel sgn L key elm = Some (comparer sgn L key elm).
 Proof. exact tie_comparer. Qed.
 Print Assumptions C19_code_tie.
+
+(* ---- the tie to the code: src/polyseed.c as TRANSLATED on this run (Gen/CApi.v) ---- *)
+From Coq Require Import String.
+From PS Require Import Base GFDefs PackDefs StoreDefs MiscDefs StrDefs LangDefs ApiDefs SpecDefs SpecApi GFProofs PackProofs StoreProofs RefineProofs CTieBase CTieLang CTiePhrase CTiePhraseEv CTieSplit CTieApi CTieDecode CTieEncode CTieLocals CTieInject CTieCmp CTieSearch CodeTheorems.
+From PS.Gen Require Import Consts PrivConsts Langs.
+From PS.Gen Require CFuns.
+From PS.Gen Require CApi.
+
+(* str_split as translated reads plain chars through the signedness parameter; for either setting it computes the mirror split, which does not mention signedness *)
+Theorem C19_code_tie_split :
+  forall (fuel : nat) (sgn : bool) (tail : list Z),
+         tail = [] \/ (exists r : list Z, tail = 0%Z :: r) ->
+         forall (content : bytes) (words0 : list Z),
+         no_nul content ->
+         Datatypes.length words0 = 16%nat ->
+         (Datatypes.length content + 2 <= fuel)%nat ->
+         exists Bf' words' : list Z,
+           CApi.str_split fuel sgn (zs content ++ tail) words0 =
+           Some (Bf', words', Z.of_nat (fst (str_split content))) /\
+           Datatypes.length words' = 16%nat /\ Q Bf' words' (snd (str_split content)).
+Proof. exact @tie_str_split. Qed.
+Print Assumptions C19_code_tie_split.
